@@ -498,6 +498,129 @@ theorem requestFraming_post10 (h : ReqHead) (hv : h.version = 0) (hm : h.method 
       subst hnone
       simp [hv, hm, PayloadLength.isNone]
 
+/-! ### accepted heads are unambiguous -/
+
+theorem setHeader_chunked_mono {v : Nat} {a a' : HdrAcc} {h : Bytes × Bytes} (hok : setHeader v a h = .ok a') :
+    a.chunked = true → a'.chunked = true := by
+  unfold setHeader at hok
+  obtain ⟨name, value⟩ := h
+  simp only at hok
+  repeat' split at hok
+  all_goals (cases hok; try (intro h; simp_all))
+
+theorem setHeadersLoop_chunked_mono (v : Nat) : ∀ (hs : List (Bytes × Bytes)) (a a' : HdrAcc),
+    setHeadersLoop v a hs = .ok a' → a.chunked = true → a'.chunked = true := by
+  intro hs
+  induction hs with
+  | nil => intro a a' h hc; simp only [setHeadersLoop] at h; cases h; exact hc
+  | cons x t ih =>
+    intro a a' h hc
+    simp only [setHeadersLoop] at h
+    cases hx : setHeader v a x with
+    | error e => rw [hx] at h; cases h
+    | ok a1 => rw [hx] at h; exact ih a1 a' h (setHeader_chunked_mono hx hc)
+
+/-- on HTTP/1.1, a `chunked` Transfer-Encoding header the loop got past switches chunked on -/
+theorem setHeadersLoop_sets_chunked (val : Bytes) (hc : teIsChunked val = true) :
+    ∀ (hs : List (Bytes × Bytes)) (a a' : HdrAcc), setHeadersLoop 1 a hs = .ok a' →
+    (bTransferEncoding, val) ∈ hs → a'.chunked = true := by
+  intro hs
+  induction hs with
+  | nil => intro a a' _ hm; cases hm
+  | cons x t ih =>
+    intro a a' h hm
+    simp only [setHeadersLoop] at h
+    cases hx : setHeader 1 a x with
+    | error e => rw [hx] at h; cases h
+    | ok a1 =>
+      rw [hx] at h
+      rcases List.mem_cons.mp hm with rfl | hm
+      · have : a1.chunked = true := by
+          rw [setHeader_te1] at hx
+          unfold teIsChunked at hc
+          split at hx
+          · cases hx
+          · cases hs : toStr? val with
+            | none => rw [hs] at hc; cases hc
+            | some s =>
+              rw [hs] at hc
+              simp only [hs, Option.map_some, hc, if_true] at hx
+              cases hx; rfl
+        exact setHeadersLoop_chunked_mono 1 t a1 a' h this
+      · exact ih a1 a' h hm
+
+/-- **an accepted head with a Transfer-Encoding header is HTTP/1.1, has no Content-Length, every
+TE value is `chunked`, and the body decoder is the chunked one** -/
+theorem requestFraming_te_accepted (h : ReqHead) (pt : PayloadType) (hv : h.version ≤ 1)
+    (hok : requestFraming h = .ok pt) (val : Bytes) (hm : (bTransferEncoding, val) ∈ h.headers) :
+    h.version = 1 ∧ hasHeader bContentLength h.headers = false ∧ teIsChunked val = true ∧
+      pt = .payload (.chunked .size 0) := by
+  have hhas := hasHeader_of_mem hm
+  have hchunk : teIsChunked val = true := by
+    cases hc : teIsChunked val with
+    | true => rfl
+    | false =>
+      obtain ⟨e, he⟩ := requestFraming_te_not_chunked h val hv hm hc
+      rw [he] at hok; cases hok
+  unfold requestFraming at hok
+  cases hset : setHeaders h.version h.headers with
+  | error e => rw [hset] at hok; cases hok
+  | ok pl =>
+    rw [hset] at hok
+    simp only at hok
+    cases hte : teRules h with
+    | error e => rw [hte] at hok; cases hok
+    | ok u =>
+      rw [hte] at hok
+      simp only at hok
+      -- from teRules = ok: version ≠ 0 and no CL
+      have hver : h.version = 1 := by
+        unfold teRules at hte
+        simp only [hhas, if_true] at hte
+        by_cases h0 : (h.version == 0) = true
+        · simp [h0] at hte
+        · have : h.version ≠ 0 := by simpa using h0
+          omega
+      have hnocl : hasHeader bContentLength h.headers = false := by
+        unfold teRules at hte
+        simp only [hhas, if_true] at hte
+        have h0 : (h.version == 0) = false := by simp [hver]
+        simp only [h0, Bool.false_eq_true, if_false] at hte
+        split at hte
+        · cases hte
+        · cases hte
+        · cases hcl : hasHeader bContentLength h.headers with
+          | false => rfl
+          | true => simp [hcl] at hte
+      -- the loop switched chunked on
+      have hpl : pl = .payload (.payload (.chunked .size 0)) := by
+        unfold setHeaders at hset
+        cases hloop : setHeadersLoop h.version {} h.headers with
+        | error e => rw [hloop] at hset; cases hset
+        | ok a =>
+          rw [hloop] at hset
+          rw [hver] at hloop
+          have := setHeadersLoop_sets_chunked val hchunk _ _ _ hloop hm
+          simp only [this, if_true] at hset
+          cases hset; rfl
+      subst hpl
+      split at hok
+      · cases hok
+      · cases hok
+        exact ⟨hver, hnocl, hchunk, by simp [chooseDecoder, PayloadLength.isZero]⟩
+
+/-- **every Content-Length header of an accepted head carries a decimal value** -/
+theorem requestFraming_cl_accepted (h : ReqHead) (pt : PayloadType)
+    (hok : requestFraming h = .ok pt) (val : Bytes) (hm : (bContentLength, val) ∈ h.headers) :
+    ∃ n, clValue val = some n := by
+  cases hc : clValue val with
+  | some n => exact ⟨n, rfl⟩
+  | none =>
+    obtain ⟨e, he⟩ := setHeadersLoop_bad_cl h.version val hc h.headers {} hm
+    have : requestFraming h = .error e := by
+      unfold requestFraming setHeaders; rw [he]
+    rw [this] at hok; cases hok
+
 theorem requestFraming_of_loop_error (h : ReqHead) (e : ParseErr)
     (he : setHeadersLoop h.version ({} : HdrAcc) h.headers = .error e) : requestFraming h = .error e := by
   unfold requestFraming setHeaders
